@@ -5,7 +5,7 @@
    (hash, match) for ARBITRARY hash values and an ARBITRARY split policy (Index.v).
    Part 2 (Run.v, DBSim.v, added below when built): runs over all operation sequences, and the
    refinement chain index -> flat index. *)
-From Pogreb Require Import Base Record Flat Index Spec DB DBInv DBLemmas DBProofsOps.
+From Pogreb Require Import Base Record Flat Index Spec DB DBInv DBLemmas DBProofsOps DBSim.
 From Coq Require Import Permutation.
 
 Theorem C01_put : forall (P : params) (s : st) (k v : list N),
@@ -114,3 +114,25 @@ Theorem C01_pinned_refuted : exists p sl m, PInv p /\
   (exists o, In o (all_slots p) /\ sl_h o = sl_h sl /\ m o = true) /\ snd (px_put_pinned grow0 p sl m) = None.
 Proof. exact pinned_put_refuted. Qed.
 Print Assumptions C01_pinned_refuted.
+
+(* ---- Part 2: all operation sequences, on the REAL bucket-chain index ----
+   For every parameter set P (hash function, split policy, segment size, compaction thresholds, sync
+   mode all arbitrary), every chain-index state related to an invariant flat state, and every finite
+   list of Put / Delete / Get / GetAppend / Has / Count / Items / Sync whose Puts are within the size
+   limits: the outputs equal those of a plain map started from the abstract contents (Items up to
+   permutation), provided no segment comes within one maximal record of 4 GiB along the run. *)
+Theorem C01_every_operation_sequence : forall (P : params) (sp sf : st) (l : list op),
+  params_ok P -> st_rel sp sf -> Inv P sf -> Forall op_valid l -> rooms P sf l ->
+  Forall2 out_equiv (run (step_chain P) sp l) (run step_spec (abs (s_disk sf)) l).
+Proof. exact C01_chain_refines_map. Qed.
+Print Assumptions C01_every_operation_sequence.
+
+(* from a freshly created database, against the empty map *)
+Theorem C01_from_a_new_database : forall (P : params) (seed : N) (l : list op),
+  params_ok P -> Forall op_valid l -> rooms P (flat_init seed) l ->
+  Forall2 out_equiv (run (step_chain P) (fst (db_open chain_ops P seed st0)) l) (run step_spec nil l).
+Proof. exact C01_chain_from_empty. Qed.
+Print Assumptions C01_from_a_new_database.
+
+(* non-vacuity: the hypotheses are met by a state with an overflow chain and a hole (40 colliding keys, one deleted) *)
+Definition C01_nonvacuous := SimEx.ex_rel.
